@@ -35,12 +35,12 @@ pub fn run(ctx: &Ctx) {
         p_correct: 0.5,
         forks_everywhere: false,
         n_forks: 4,
-        histories: ctx.scale(64, 160),
+        histories: ctx.scale(64, 112),
         positional: false,
     };
     ctx.extra("config", vcore::json!(format!("{cfg:?}")));
     run_histories(ctx, &cfg);
-    ctx.floor("histories_nontrivial", ctx.scale(32, 100));
+    ctx.floor("histories_nontrivial", ctx.scale(32, 70));
     for k in [
         "insert_rejected_HeadersVerificationFailed",
         "insert_rejected_NeighborsVerificationFailed",
